@@ -232,6 +232,16 @@ def run(ctx):
             r3.check(wit is None, "primary-in-query-arm-is-sticky#%d" % k, "a primary decision in the Query arm sets a sticky flag before the next statement",
                      "a statement classified as a write or locking read does not set a write-seen flag: in `SELECT .. FOR UPDATE; SELECT ..` the second statement re-routes the whole message to a replica",
                      st["span"], wit and inf.describe_path(wit))
+        # ... and so is the one of every other arm: a statement kind with an arm of its own (BEGIN) either ends the look at the message or sets a flag that
+        # guards the non-primary assignments - otherwise the Query arm of a later statement of the same message (`BEGIN; SELECT ..`) overwrites it and the
+        # transaction is opened on a replica (round 10)
+        for vname, tgt in d[2].items():
+            if vname == "Query" or tgt == catch_all:
+                continue
+            wit = inf.uncrossed_path([tgt], [head], blocks=gset)
+            r3.check(wit is None, "arm-is-sticky:%s" % vname, "the %s arm ends the statement loop or sets a sticky flag before the next statement" % vname,
+                     "after the %s arm has routed the message to the primary the loop can go on to the next statement with no write-seen flag set: in `BEGIN; SELECT ..` the SELECT's Query arm re-routes the "
+                     "message, the transaction is opened on a replica and, in transaction mode, every later statement of it runs there" % vname, "", wit and inf.describe_path(wit))
         T, _, _ = call_bool_edges(inf, *roots, switches_cache=sws) if roots else (set(), set(), [])
         for sw2, o, te, fe in bool_value_edges(inf, lambda o: o.kind == "call" and o.call.name.endswith("::is_empty") and "locks" in {f for a in o.call.args for oo in origins(inf, a) for f in [p[1:] for p in oo.proj if p.startswith(".")]}, sws):
             lockT.add(fe if not o.neg else te)  # locks NOT empty
